@@ -152,8 +152,8 @@ func ruleC20(r *Report) {
 	la := NewLockAnalysis(p, cgKind)
 	idpPkg := modPath + "/samlidp"
 
-	r.Rule("C20.guarded", "every read of a mutex-guarded map field happens with the mutex held (R or W), every write with it held in W mode; guarded-by table derived from struct shapes (one mutex + map fields)", 8)
-	r.Rule("C20.pairing", "every lock acquisition is released on all paths to every exit (explicitly or by a deferred unlock)", 8)
+	r.Rule("C20.guarded", "every read of a mutex-guarded map field happens with the mutex held (R or W), every write with it held in W mode; guarded-by table derived from struct shapes (one mutex + map fields)", 5)
+	r.Rule("C20.pairing", "every lock acquisition is released on all paths to every exit (explicitly or by a deferred unlock)", 4)
 	r.Rule("C20.reentry", "no call made while a lock is held can re-acquire the same lock (any mode) when some module function takes it in write mode (RWMutex read locks are not re-entrant behind a waiting writer)", 1)
 	r.Rule("C20.order", "the acquired-while-holding graph over abstract locks is acyclic", 1)
 	r.Rule("C20.shared-state", "request-time functions of the bundled server do not store to package-level variables or to fields of shared objects outside a critical section; no goroutines/channels in samlidp", 1)
